@@ -7,6 +7,7 @@ package reads
 import (
 	"bytes"
 	"fmt"
+	"github.com/influxdata/influxql"
 	"math"
 	"sort"
 	"strings"
@@ -36,11 +37,44 @@ type pnode struct {
 	Ne  bool    `json:"ne,omitempty"`
 	V   string  `json:"v,omitempty"`
 	Par bool    `json:"par,omitempty"` // wrapped in a ParenExpression node
+	Val bool    `json:"val,omitempty"` // value comparison leaf: _value > T
+	T   float64 `json:"t,omitempty"`
 }
 
-func (p *pnode) eval(s, f int) tri {
+// hasVal reports whether the predicate contains a value comparison (then it selects points, not only series).
+func (p *pnode) hasVal() bool {
+	if p == nil {
+		return false
+	}
+	if p.Val {
+		return true
+	}
+	for i := range p.K {
+		if p.K[i].hasVal() {
+			return true
+		}
+	}
+	return false
+}
+
+// evalPt evaluates the predicate for one stored value (write id) of series s / field f. Only float fields have a
+// decided value comparison (the stored value is float64(id)); for the other types the leaf is unknown.
+func (p *pnode) evalPt(s, f int, id uint64) tri { return p.evalWith(s, f, id, true) }
+
+func (p *pnode) eval(s, f int) tri { return p.evalWith(s, f, 0, false) }
+
+func (p *pnode) evalWith(s, f int, id uint64, pt bool) tri {
 	if p == nil {
 		return yes
+	}
+	if p.Val {
+		if !pt || fieldTypes[f] != influxql.Float {
+			return unknown
+		}
+		if float64(id) > p.T {
+			return yes
+		}
+		return no
 	}
 	if p.L == "" {
 		v, has := tagOf(s, f, p.Key)
@@ -57,7 +91,7 @@ func (p *pnode) eval(s, f int) tri {
 	}
 	sawUnknown := false
 	for i := range p.K {
-		switch p.K[i].eval(s, f) {
+		switch p.K[i].evalWith(s, f, id, pt) {
 		case yes:
 			if p.L == "or" {
 				return yes
@@ -83,6 +117,9 @@ func (p *pnode) text() string {
 	if p == nil {
 		return "true"
 	}
+	if p.Val {
+		return fmt.Sprintf("_value>%g", p.T)
+	}
 	if p.L == "" {
 		op := "=="
 		if p.Ne {
@@ -105,6 +142,9 @@ func (p *pnode) shape() string {
 	if p == nil {
 		return "none"
 	}
+	if p.Val {
+		return "val"
+	}
 	if p.L == "" {
 		return "cmp"
 	}
@@ -112,6 +152,8 @@ func (p *pnode) shape() string {
 	for i := range p.K {
 		if p.K[i].L != "" {
 			s += p.K[i].L
+		} else if p.K[i].Val {
+			s += "v"
 		} else {
 			s += "."
 		}
@@ -121,7 +163,16 @@ func (p *pnode) shape() string {
 
 func (p *pnode) node() *datatypes.Node {
 	var n *datatypes.Node
-	if p.L == "" {
+	if p.Val {
+		n = &datatypes.Node{
+			NodeType: datatypes.Node_TypeComparisonExpression,
+			Value:    &datatypes.Node_Comparison_{Comparison: datatypes.Node_ComparisonGreater},
+			Children: []*datatypes.Node{
+				{NodeType: datatypes.Node_TypeFieldRef, Value: &datatypes.Node_FieldRefValue{FieldRefValue: "_value"}},
+				{NodeType: datatypes.Node_TypeLiteral, Value: &datatypes.Node_FloatValue{FloatValue: p.T}},
+			},
+		}
+	} else if p.L == "" {
 		cmp := datatypes.Node_ComparisonEqual
 		if p.Ne {
 			cmp = datatypes.Node_ComparisonNotEqual
@@ -568,14 +619,35 @@ func (w *world) judge(q *query, groups []group, inv, ret uint64, who string, qui
 				}
 				continue
 			}
-			if m == unknown && len(pts) == 0 {
+			if m == unknown && len(pts) == 0 && !q.pred.hasVal() {
 				continue
 			}
-			class, detail := v.CheckRead(s, f, tmin, tmax, true, pts)
+			vv := v
+			if q.pred.hasVal() {
+				// the predicate selects points: a returned point must not fail it, and a cell may be absent
+				// unless every value ever written to it satisfies it
+				for _, p := range pts {
+					if q.pred.evalPt(s, f, p.ID) == no {
+						return bad("point-not-matching", "value-condition-false", "series %s: point %d#%d does not satisfy %s", name, p.TS, p.ID, q.pred.text())
+					}
+				}
+				vv.Skip = func(s, f int, ts int64) bool {
+					for _, wr := range w.h.Cells[model.SF{Series: s, Field: f}][ts] {
+						if q.pred.evalPt(s, f, wr.ID) != yes {
+							return true
+						}
+					}
+					return false
+				}
+			}
+			class, detail := vv.CheckRead(s, f, tmin, tmax, true, pts)
 			if class == "" {
 				continue
 			}
 			sig := class
+			if q.pred.hasVal() {
+				sig += ":value-condition"
+			}
 			if class == "lost" {
 				var ts int64
 				fmt.Sscanf(detail, "ts=%d", &ts)
